@@ -42,11 +42,11 @@ Proof.
   destruct m; try congruence.
   - apply resize1_gather_fwd; auto.
   - apply resize1_gather_fwd; auto.
-  - unfold resize1. cbn [pmode_eqb andb negb is_fwd padding_applies].
+  - rewrite resize1_valid by offv. unfold resize1_core. cbn [pmode_eqb andb negb is_fwd padding_applies].
     rewrite assign_intersection_grow by exact Hpos.
     pose proof (ap1_order0 Forward (repeat nzero pl) x (repeat nzero pr)) as E.
     rewrite !repeat_length in E. apply E; [lia | exact Hok].
-  - unfold resize1. cbn [pmode_eqb andb negb is_fwd padding_applies].
+  - rewrite resize1_valid by offv. unfold resize1_core. cbn [pmode_eqb andb negb is_fwd padding_applies].
     rewrite assign_intersection_grow by exact Hpos.
     pose proof (ap1_order1 Forward (repeat nzero pl) x (repeat nzero pr)) as E.
     rewrite !repeat_length in E. apply E; [lia | exact Hok].
@@ -62,11 +62,11 @@ Proof.
   destruct m; try congruence.
   - apply resize1_gather_adj; auto.
   - apply resize1_gather_adj; auto.
-  - unfold resize1. cbn [pmode_eqb andb negb is_fwd padding_applies].
+  - rewrite resize1_valid by offv. unfold resize1_core. cbn [pmode_eqb andb negb is_fwd padding_applies].
     rewrite ap1_order0 by assumption. cbn [is_fwd].
     pose proof (adj_struct_length POrder0 A B C) as HB. cbn [adj_struct] in HB.
     rewrite <- HB at 1. rewrite assign_intersection_shrink by exact Hpos. reflexivity.
-  - unfold resize1. cbn [pmode_eqb andb negb is_fwd padding_applies].
+  - rewrite resize1_valid by offv. unfold resize1_core. cbn [pmode_eqb andb negb is_fwd padding_applies].
     rewrite ap1_order1 by assumption. cbn [is_fwd].
     pose proof (adj_struct_length POrder1 A B C) as HB. cbn [adj_struct] in HB.
     rewrite <- HB at 1. rewrite assign_intersection_shrink by exact Hpos. reflexivity.
@@ -83,7 +83,7 @@ Qed.
 Lemma resize1_fwd_shrink m c cast (A B C : list T) : (0 < length A + length C)%nat ->
   resize1 m Forward c cast (A ++ B ++ C) (length B) (Z.of_nat (length A)) = Ok B.
 Proof.
-  intros Hpos. unfold resize1.
+  intros Hpos. rewrite resize1_valid by offv. unfold resize1_core.
   assert (E : (length (A ++ B ++ C) <? length B)%nat = false)
     by (apply Nat.ltb_ge; rewrite !app_length; lia).
   rewrite E, andb_false_r. cbn [is_fwd negb andb].
